@@ -91,8 +91,22 @@ def nlines(text):
     return text.count("\n") + 1
 
 
+def bracket_depth(text):
+    """Maximal nesting of ( [ { in a text (strings / comments are not excluded: an over-estimate)."""
+    d = m = 0
+    for ch in text:
+        if ch in "([{":
+            d += 1
+            m = max(m, d)
+        elif ch in ")]}":
+            d = max(0, d - 1)
+    return m
+
+
 def signature(exc, stage, text, tb_names):
-    """Key of the as-implemented deviation an escaping internal error belongs to, if any."""
+    """Key of the as-implemented deviation an escaping internal error belongs to, if any
+    (trigger = exception type + message prefix + raising function, plus a predicate on the input
+    where one can be stated)."""
     msg = f"{type(exc).__name__}: {exc}"
     if stage == "Parse":
         if msg.startswith("AttributeError: 'TokenInfo' object has no attribute 'lineno'"):
@@ -107,9 +121,29 @@ def signature(exc, stage, text, tb_names):
             return "number-literal-raw-syntaxerror"
         if isinstance(exc, SystemError) and "\x00" in text:
             return "nul-byte-systemerror"
-    if stage == "PyCompile" and msg.startswith(("TypeError: AnnAssign with simple non-Name target", "TypeError: TypeAlias with non-Name name",
-                                                "TypeError: NamedExpr target must be a Name")):
-        return "behavior-annassign-crash"
+        if msg.startswith("ValueError: could not convert string to float") and re.search(r"require\s*\[", text):
+            return "require-prob-not-float"
+        if isinstance(exc, RecursionError) and bracket_depth(text) >= 15:
+            return "nested-brackets-recursionerror"
+        if msg.startswith("AttributeError:") and "has no attribute 'end_lineno'" in msg and "raise_syntax_error_known_range" in tb_names:
+            return "legacy-instance-error-attributeerror"
+        if msg.startswith("TypeError: '<' not supported between instances of 'int' and 'NoneType'") and "getText" in tb_names and "\x00" in text:
+            return "nul-byte-file-typeerror"
+    if stage == "Preamble" and isinstance(exc, UnicodeDecodeError):
+        return "non-utf8-file-unicodedecodeerror"
+    if stage == "Compile" and msg.startswith('AssertionError: Scenic AST node "') and "needs visitor in compiler" in msg:
+        return "temporal-in-ifexp-assertion"
+    if stage == "PyCompile":
+        if msg.startswith(("TypeError: AnnAssign with simple non-Name target", "TypeError: TypeAlias with non-Name name",
+                           "TypeError: NamedExpr target must be a Name")):
+            return "behavior-annassign-crash"
+        if msg.startswith("TypeError: got an invalid type in Constant: list") and re.search(r"require\s+monitor\b.*\bas\b", text):
+            return "require-monitor-as-typeerror"
+        if msg.startswith("ValueError: Try has orelse but no except handlers"):
+            return "try-interrupt-else-valueerror"
+        if msg.startswith(('TypeError: Tuple field "elts" must be a list', 'TypeError: List field "elts" must be a list',
+                           "TypeError: object of type 'NoneType' has no len()", "TypeError: 'NoneType' object is not iterable")) and re.search(r"\(\s*\)|\[\s*\]", text):
+            return "empty-target-elts-none"
     return None
 
 
@@ -120,7 +154,7 @@ def _kind(e, stage):
         return "timeout" if stage in INPUT_STAGES else "user"
     if isinstance(e, ScenicSyntaxError):
         return "syntax"
-    if stage in INPUT_STAGES:
+    if stage in INPUT_STAGES or stage == "Preamble":  # Preamble: reading / decoding the source text
         return "internal"
     if isinstance(e, InvalidScenarioError):
         return "invalid"
@@ -130,6 +164,21 @@ def _kind(e, stage):
 def _line(e):
     l = getattr(e, "lineno", None)
     return l if isinstance(l, int) and l > 0 else 0
+
+
+def _textok(e):
+    """1 iff the error's `text` is the text of the line it names in the file it names (when that file
+    is on disk; a line past the end has no text)."""
+    fn, ln = getattr(e, "filename", None), _line(e)
+    if not fn or ln == 0 or not isinstance(fn, str) or not os.path.isfile(fn):
+        return 1
+    try:
+        with open(fn, "r") as f:
+            lines = f.readlines()
+    except (OSError, UnicodeDecodeError):
+        return 1
+    want = lines[ln - 1] if ln <= len(lines) else ""
+    return 1 if (getattr(e, "text", None) or "") == want else 0
 
 
 def _execstate():
@@ -190,7 +239,8 @@ def install_probes():
                     import traceback
 
                     e._c10_tb = [fr.name for fr in traceback.extract_tb(e.__traceback__)][-6:]
-                    LOG.append(["fail", name, _kind(e, name), _line(e), 0, 0])
+                    k = _kind(e, name)
+                    LOG.append(["fail", name, k, _line(e), _textok(e) if k == "syntax" else 1, 0])
                 raise
             finally:
                 _state["stage"].pop()
@@ -204,6 +254,39 @@ def install_probes():
     T.parse_string = staged("Parse", T.parse_string)
     T.compileScenicAST = staged("Compile", T.compileScenicAST)
     T.compileTranslatedTree = staged("PyCompile", T.compileTranslatedTree)
+    o_cs = T.compileStream
+
+    def compileStream(*a, **k):
+        mark = len(LOG)
+        try:
+            return o_cs(*a, **k)
+        except BaseException as e:
+            # an error before parse_string is entered: reading / decoding the source (the frame's Preamble stage)
+            if not getattr(e, "_c10_seen", False) and not any(ev[0] == "pre" for ev in LOG[mark:]):
+                import traceback
+
+                e._c10_seen, e._c10_stage = True, "Preamble"
+                e._c10_tb = [fr.name for fr in traceback.extract_tb(e.__traceback__)][-6:]
+                at = next((i for i in range(mark, len(LOG)) if LOG[i][0] == "deactivate"), len(LOG))
+                LOG.insert(at, ["fail", "Preamble", "internal", 0, 1, 0])
+            raise
+
+    T.compileStream = compileStream
+    o_a2s = T.astToSource
+
+    def astToSource(tree):
+        try:
+            return o_a2s(tree)
+        except BaseException as e:
+            if not getattr(e, "_c10_seen", False):
+                import traceback
+
+                e._c10_seen, e._c10_stage = True, "PyCompile"
+                e._c10_tb = [fr.name for fr in traceback.extract_tb(e.__traceback__)][-6:]
+                LOG.append(["fail", "PyCompile", _kind(e, "PyCompile"), _line(e), 1, 0])
+            raise
+
+    T.astToSource = astToSource
     T.executeCodeIn = staged("Exec", T.executeCodeIn)
     T.storeScenarioStateIn = staged("Store", T.storeScenarioStateIn)
     T.constructScenarioFrom = staged("Construct", T.constructScenarioFrom)
@@ -285,9 +368,19 @@ def run_one(text, mode, opts):
     del LOG[:]
     _state["stage"][:] = []
     _state["pending_model"] = False
+    written = []
+    if mode == "file":
+        # the program is compiled FROM A FILE (errors.getText then reads the file back); text is the
+        # decoded content, opts["bytes"] the exact bytes, opts["aux"] further files (imported modules)
+        _state["fileno"] = _state.get("fileno", 0) + 1
+        path = os.path.join(os.getcwd(), f"c10prog_{os.getpid()}_{_state['fileno']}.scenic")
+        for fn, data in [(path, opts["bytes"])] + [(os.path.join(os.getcwd(), k), v) for k, v in (opts.get("aux") or {}).items()]:
+            with open(fn, "wb") as f:
+                f.write(data)
+            written.append(fn)
     n = nlines(text)
     LOG.append(snapshot())
-    LOG.append(["begin", mode, "", int(bool(opts.get("params"))), int(bool(opts.get("mode2D"))), n])
+    LOG.append(["begin", "top" if mode == "file" else mode, "", int(bool(opts.get("params"))), int(bool(opts.get("mode2D"))), n])
     info = {"exc": None, "stage": None}
     # watchdog on the CPU time of this process (the box may be heavily loaded), plus a generous wall clock
     old = signal.signal(signal.SIGALRM, _on_alarm)
@@ -300,6 +393,8 @@ def run_one(text, mode, opts):
         with contextlib.redirect_stdout(sink), contextlib.redirect_stderr(sink):
             if mode == "top":
                 scenic.scenarioFromString(text, params=dict(opts.get("params") or {}), mode2D=bool(opts.get("mode2D")))
+            elif mode == "file":
+                scenic.scenarioFromFile(path, mode2D=bool(opts.get("mode2D")))
             else:
                 st = T.parse_string(text, "exec", filename="<string>")
                 tree, _r = T.compileScenicAST(st, filename="<string>")
@@ -317,9 +412,13 @@ def run_one(text, mode, opts):
         stage = getattr(e, "_c10_stage", None)
         if stage is None:
             # raised outside every probed section (e.g. inside veneer.activate): an internal error
-            stage = _state["stage"][-1] if _state["stage"] else "outside"
-            LOG.append(["fail", "Activate", "internal", 0, 0, 0])
+            # (right after veneer.activate the frame is in its Preamble stage: reading / decoding the source)
+            stage = "Preamble" if LOG and LOG[-1][0] == "activate" else "Activate"
+            LOG.append(["fail", stage, "internal", 0, 1, 0])
             kind = "internal"
+            import traceback
+
+            e._c10_tb = [fr.name for fr in traceback.extract_tb(e.__traceback__)][-6:]
         else:
             kind = _kind(e, stage)
         info = {"exc": f"{type(e).__name__}: {e}"[:300], "stage": stage, "kind": kind, "line": _line(e),
@@ -334,6 +433,11 @@ def run_one(text, mode, opts):
         signal.signal(signal.SIGVTALRM, oldv)
     if mode == "direct":
         LOG[:] = [ev for ev in LOG if ev[0] != "pre"]  # the bare pipeline has no preamble
+    for fn in written:
+        try:
+            os.unlink(fn)
+        except OSError:
+            pass
     LOG.append(snapshot())
     return [list(ev) for ev in LOG], info
 
@@ -386,6 +490,65 @@ HAND_WRITTEN = {
     "hw-fstring": "n = 3\ns = f'{n!r:>4} {n=}'\nego = new Object\n",
 }
 
+# targeted malformed / unusual programs (forms mutation reaches only by luck); each must end in a
+# scenario or a located Scenic error like everything else
+TARGETED = {
+    "tg-require-prob-complex": "ego = new Object\nrequire[1j] ego.x > 0\n",
+    "tg-require-prob-hex": "ego = new Object\nrequire[0x1] ego.x > 0\n",
+    "tg-require-prob-big": "ego = new Object\nrequire[2] ego.x > 0\n",
+    "tg-span-blank-line": "x = (1 +\n\n  2 3)\ny = 1\n",
+    "tg-span-3line-string": "x = f('''a\nb\nc''' 3)\n",
+    "tg-span-unclosed": "angle = (8 deg - 3 deg\n\nc = new Object at 1 @ 2,\n    facing angle\nmutate\n",
+    "tg-nested-parens-12": "x = " + "(" * 12 + "1" + ")" * 12 + "\n",
+    "tg-nested-parens-25": "x = " + "(" * 25 + "1" + ")" * 25 + "\n",
+    "tg-nested-lists-25": "x = " + "[" * 25 + "1" + "]" * 25 + "\n",
+    "tg-nested-calls-30": "x = " + "f(" * 30 + "1" + ")" * 30 + "\n",
+    "tg-legacy-instance": "ego = Object beyond x by y\n",
+    "tg-legacy-instance-at": "ego = Object at 1 @ 2\n",
+    "tg-legacy-instance-facing": "ego = new Object\nc = Car facing 30 deg, with width 2\n",
+    "tg-require-monitor-as": "monitor M():\n    wait\nego = new Object\nrequire monitor M() as nm\n",
+    "tg-require-as": "ego = new Object\nrequire ego.x > 0 as nm\nrequire[0.5] ego.y > 0 as 'quoted name'\n",
+    "tg-bad-escape-x": 'x = "\\x"\nego = new Object\n',
+    "tg-bad-escape-u": 'x = "\\u12"\nego = new Object\n',
+    "tg-bad-escape-N": 'x = "\\N{NOT A NAME}"\nego = new Object\n',
+    "tg-bad-escape-bytes": "x = b'\\xz'\nego = new Object\n",
+    "tg-leading-zero": "x = 010\nego = new Object\n",
+    "tg-bad-number": "x = 1__0 + 0x + 1e + 0b2\n",
+    "tg-try-interrupt-else-finally": "behavior B():\n    try:\n        wait\n    interrupt when x:\n        wait\n    else:\n        wait\n    finally:\n        wait\n",
+    "tg-try-interrupt-else": "behavior B():\n    try:\n        wait\n    interrupt when x:\n        wait\n    else:\n        wait\n",
+    "tg-try-interrupt-finally": "behavior B():\n    try:\n        wait\n    interrupt when x:\n        wait\n    finally:\n        wait\nego = new Object\n",
+    "tg-try-interrupt-except-else": "behavior B():\n    try:\n        wait\n    interrupt when x:\n        wait\n    except E:\n        wait\n    else:\n        wait\nego = new Object\n",
+    "tg-always-ifelse": "ego = new Object\nrequire always ego.x if ego.y else ego.z\n",
+    "tg-ifelse-always": "ego = new Object\nrequire ego.x if ego.y else always ego.z\n",
+    "tg-always-paren-ifelse": "ego = new Object\nrequire always (ego.x if ego.y else ego.z)\n",
+    "tg-walrus-behavior": "behavior B():\n    if (n := 3) > 1:\n        wait\nego = new Object\n",
+    "tg-annassign-behavior": "behavior B():\n    n: int = 3\n    wait\nego = new Object\n",
+    "tg-typealias-monitor": "monitor M():\n    type T = int\n    wait\nego = new Object\n",
+    "tg-empty-tuple-for": "for () in []:\n    pass\nego = new Object\n",
+    "tg-empty-list-assign": "[] = []\n() = ()\nego = new Object\n",
+    "tg-empty-del": "del ()\ndel []\nego = new Object\n",
+    "tg-empty-with": "with open('x') as ():\n    pass\n",
+    "tg-star-annotation": "def f(*a: *T):\n    return a\nego = new Object\n",
+    "tg-fstring-conversion": "n = 3\ns = f'{n!r}'\nego = new Object\n",
+    "tg-nul-indented": "scenario S():\n    setup:\n        ego = \x00 new Object\n",
+    "tg-scenic-target": "target = new Object = facing 3 deg\nx = 1 @ 2 = 3\n",
+    "tg-ternary-chain": "x = 1 if a else 2 if b else 3\ny = 1 if a else lambda: 2\nego = new Object\n",
+    "tg-temporal-group-implies": "ego = new Object\nrequire (always ego.x > 0) implies ego.y > 0\n",
+    "tg-crlf": "ego = new Object\r\nx = (1,\r\n  2)\r\nrequire x[0] > = 0\r\n",
+    "tg-tabs-mixed": "behavior B():\n\twait\n        wait\n",
+    "tg-formfeed": "ego = new Object\n\x0cx = 1 +\n",
+    "tg-bom": "\ufeffego = new Object\nx = = 1\n",
+    "tg-nonascii": "été = 'é中'\nα = été +\n",
+    "tg-only-comment": "# nothing here",
+    "tg-empty": "",
+    "tg-only-newlines": "\n\n\n",
+    "tg-backslash-eof": "x = 1 + \\",
+    "tg-unterminated-string": "x = 'abc\nego = new Object\n",
+    "tg-unterminated-triple": "x = '''abc\nego = new Object\n",
+    "tg-unterminated-fstring": "x = f'{a\nego = new Object\n",
+    "tg-dedent-mismatch": "behavior B():\n        wait\n    wait\n",
+}
+
 HELPERS = {
     "c10_helper.scenic": "val = 3\nclass Thing:\n    qq: 1\nparam hp = 1\n",
     "c10_mid.scenic": "import c10_helper\nw = c10_helper.val + 1\nscenario SubM():\n    setup:\n        ego = new Object\n",
@@ -430,7 +593,7 @@ def collect_seeds():
                         light = not _HEAVY.search(text) and "/simulators/" not in path and "/domains/" not in path
                         seeds.append((f"{rel}#{k}", text, light))
                         k += 1
-    for sid, text in HAND_WRITTEN.items():
+    for sid, text in list(HAND_WRITTEN.items()) + list(TARGETED.items()):
         seeds.append((sid, text, True))
     # distinct texts only
     seen = set()
@@ -784,6 +947,82 @@ def check_formula(item):
 # --------------------------------------------------------------------------- main
 
 
+FILE_BASES = {
+    "fb-demo": "ego = new Object with blah 0\n\nbehavior Foo(n):\n    try:\n        take n\n    interrupt when self.blah > 3:\n        take 0\n\n"
+               "class Box(Object):\n    width: 2\n\nscenario Sub():\n    setup:\n        other = new Object at 10@10\n",
+    "fb-monitor": "monitor M(a):\n    while True:\n        if a > 0:\n            wait\n        else:\n            terminate\n\nego = new Object\n"
+                  "require monitor M(1)\nfor i in range(2):\n    with open(__file__) as f:\n        pass\n",
+    "fb-compose": "scenario Main():\n    precondition: True\n    setup:\n        ego = new Object\n    compose:\n        try:\n            wait\n"
+                  "        interrupt when False:\n            abort\n        except Exception as e:\n            raise\n",
+    "fb-python": "import math\n\ndef f(a, b=1):\n    if a:\n        return [\n            a,\n            b,\n        ]\n    elif b:\n        return {a: b}\n"
+                 "    else:\n        return None\n\nx = f(1)\nego = new Object at (len(x), 0)\n",
+}
+
+
+def _encode_variants(text):
+    """(tag, bytes, decoded text) for the on-disk forms of one program text."""
+    out = [("lf", text.encode("utf-8"), text)]
+    crlf = text.replace("\n", "\r\n")
+    out.append(("crlf", crlf.encode("utf-8"), crlf))
+    tabs = "".join(("\t" * ((len(l) - len(l.lstrip(" "))) // 4) + l.lstrip(" ")) for l in text.splitlines(True))
+    out.append(("tabs", tabs.encode("utf-8"), tabs))
+    bom = "\ufeff" + text
+    out.append(("bom", bom.encode("utf-8"), bom))
+    na = "# été 中\nnom_é = 'é中😀'\n" + text
+    out.append(("nonascii", na.encode("utf-8"), na))
+    return out
+
+
+def file_runs(tier, rnd):
+    """Programs compiled FROM FILES (scenarioFromFile): every truncation at a line boundary of the base
+    programs -- with the final newline, without it, and followed by an indented blank line --, an error on
+    the last line, past the last line, and the same in files with CRLF / tabs / a BOM / non-ASCII text,
+    and in files imported from another Scenic file.  Returns runs (rid, text, "file", opts)."""
+    runs = []
+    k = 0
+    for bid, base in list(FILE_BASES.items()) + [(h, HAND_WRITTEN[h]) for h in ("hw-behavior", "hw-scenario", "hw-class")]:
+        lines = base.splitlines(True)
+        cuts = []
+        for i in range(1, len(lines) + 1):
+            head = "".join(lines[:i])
+            cuts.append((f"cut{i}", head))                       # ends with its newline
+            cuts.append((f"cut{i}-nonl", head[:-1]))             # last line unterminated
+            if lines[i - 1].rstrip().endswith(":"):
+                cuts.append((f"cut{i}-ws", head + "    "))      # block opener, then an indented empty last line
+                cuts.append((f"cut{i}-blank", head + "\n\n"))
+        cuts.append(("badlast", base + "x = = 1\n"))
+        cuts.append(("badlast-nonl", base + "x = = 1"))
+        cuts.append(("badlast-open", base + "y = (1,\n"))
+        cuts.append(("full", base))
+        for cid, text in cuts:
+            opener = text.rstrip().endswith(":")
+            variants = _encode_variants(text)
+            for tag, data, decoded in variants:
+                k += 1
+                if tag != "lf":
+                    # quick: the other encodings for the cuts right after a block opener and a seeded sample
+                    if tier == "quick" and not (opener and tag == "crlf") and (k + seed()) % 9:
+                        continue
+                runs.append((f"{bid}|{cid}|{tag}|file", decoded, "file", {"bytes": data}))
+            # the same text as an imported module: the error is located in the imported file
+            if opener or cid.startswith("badlast") or (k + seed()) % 5 == 0:
+                k += 1
+                mod = f"c10imp{k}"
+                top = f"import {mod}\nego = new Object\n"
+                for tag, data, _dec in (variants[:1] if tier == "quick" else variants[:2]):
+                    runs.append((f"{bid}|{cid}|{tag}|imported|file", top, "file", {"bytes": top.encode(), "aux": {mod + ".scenic": data}}))
+    for tid, text in TARGETED.items():
+        try:
+            data = text.encode("utf-8")
+        except UnicodeEncodeError:
+            continue
+        runs.append((f"{tid}|seed|file", text, "file", {"bytes": data}))
+    # bytes that are not UTF-8 at all
+    bad = "ego = new Object\nx = 'caf\xe9'\n".encode("latin-1")
+    runs.append(("tg-latin1|seed|file", bad.decode("latin-1"), "file", {"bytes": bad}))
+    return runs
+
+
 def make_runs(tier):
     rnd = random.Random(seed() * 7919 + 10)
     seeds = collect_seeds()
@@ -793,9 +1032,9 @@ def make_runs(tier):
     # every seed unmutated through the bare pipeline; the light ones through the whole lifecycle
     for k, (sid, text, is_light) in enumerate(seeds):
         runs.append((f"{sid}|seed|direct", text, "direct", {}))
-        if is_light and (tier != "quick" or sid.startswith("hw-") or (k + seed()) % 3 == 0):
+        if is_light and (tier != "quick" or sid.startswith(("hw-", "tg-")) or (k + seed()) % 3 == 0):
             runs.append((f"{sid}|seed|top", text, "top", {}))
-    hw = [s for s in seeds if s[0].startswith("hw-")]
+    hw = [s for s in seeds if s[0].startswith(("hw-", "tg-"))]
     for k in range(n_mut):
         pool = hw if k % 5 == 0 else (light if k % 5 in (1, 2) else seeds)
         sid, text, is_light = pool[rnd.randrange(len(pool))]
@@ -818,7 +1057,13 @@ def make_runs(tier):
                 opts["mode2D"] = True
             if k % 12 == 0:
                 opts["params"] = {"vp": 1}
+            if k % 6 == 0:
+                try:  # the same mutant compiled from a file
+                    runs.append((rid + "file", mtext, "file", {"bytes": mtext.encode("utf-8")}))
+                except UnicodeEncodeError:
+                    pass
             runs.append((rid + "top", mtext, "top", opts))
+    runs.extend(file_runs(tier, rnd))
     return runs, len(seeds)
 
 
@@ -956,14 +1201,14 @@ def main(tier):
     texts = {r[0]: r[1] for r in runs}
     traces = {}
     bykey = {}
-    stats = {"top": 0, "direct": 0, "ok": 0, "syntax": 0, "user": 0, "invalid": 0, "internal": 0, "timeout": 0, "exec_timeouts": 0}
+    stats = {"top": 0, "direct": 0, "file": 0, "ok": 0, "syntax": 0, "user": 0, "invalid": 0, "internal": 0, "timeout": 0, "exec_timeouts": 0}
     machinery_drops = []
     for chunk in outs:
         for rid, ev, info in chunk:
             if ev is None:
                 machinery_drops.append((rid, info.get("machinery")))
                 continue
-            mode = "top" if rid.endswith("|top") else "direct"
+            mode = "file" if rid.endswith("|file") else ("top" if rid.endswith("|top") else "direct")
             stats[mode] += 1
             end = [e for e in ev if e[0] == "end"][0]
             stats["ok" if end[1] == "ok" else end[2]] = stats.get("ok" if end[1] == "ok" else end[2], 0) + 1
